@@ -59,7 +59,7 @@ CHECKS = {
    note="Claimed in part: compute_beta (root search on |Phi(x)-P_A|), the P_RAJ damage parameter (cos, real powers, Newton) and DamageCalculatorPRAJ are outside. Curve exponents are the constants of three material groups; R_m in {400,600,1200}; P_RAM tables with float and with integer-typed stress columns (dtype effects show in the concrete replay of every path witness on the real code); x**y in the damage calculator is an arbitrary positive number depending on (x,y) (represented as 1/t, t > 0 fresh); 1..3 (quick) / 1..5 (thorough) hystereses.",
    design="6 C09"),
  "C18": dict(
-   text="Bounded exhaustive symbolic check of the one encodable clause: FatigueData zone logic on symbolic loads and cycles for every fracture-flag pattern: finite and infinite zone are disjoint and cover all tests, every infinite-zone load <= reported transition <= every finite-zone load, all tests in the finite zone without run-outs, zone membership and transition invariant under row permutation.",
+   text="Bounded exhaustive symbolic check of the one encodable clause: FatigueData zone logic on symbolic loads and cycles for every fracture-flag pattern: finite and infinite zone are disjoint and cover all tests, every infinite-zone load <= reported transition <= every finite-zone load, all tests in the finite zone without run-outs, zone membership and transition invariant under row permutation; multiplying all loads by a symbolic c > 0 multiplies the transition (the elementary endurance estimate) by c and keeps the zones, multiplying all cycle numbers changes neither.",
    note="Claimed for this clause only: equivariance, exact recovery and likelihood ordering of the Elementary / Probit / MaxLike analyzers are outside (least squares, scipy.optimize.fmin, norm.ppf on symbolic data have no encoding). 2..3 (quick) / 2..5 (thorough) test rows; admissible data (two distinct fracture loads and cycle numbers). pandas.Series.unique gets an object-dtype fall-back.",
    design="6 C18"),
  "C19": dict(
